@@ -109,3 +109,11 @@ def ps5_unwrap_or_else(u, key, text):
         raise LostAnchor('%s: PS5 an unwrap_or_else of another shape' % key)
     u.rules['PS5-unwrap-or-else'] += n
     return new
+
+
+def ps6_from_utf8(u, key, text):
+    """PS6  String::from_utf8(X)  ->  ps_string_from_utf8(X): a TRUSTED wrapper (spec/u_pspan4_spec.rs) whose body is the very call and
+    whose result is unconstrained; the error value, which the code ignores (`Err(_error)`), is dropped."""
+    new, n = re.subn(r'\bString::from_utf8\(', 'ps_string_from_utf8(', text)
+    u.rules['PS6-from-utf8'] += n
+    return new
